@@ -208,6 +208,17 @@ def check(rep, F, tier, replay=None):
     placeholder_full_rule(rep, F)
     from ruleutil import who_assets_rule
     who_assets_rule(rep, F)
+    # REGISTER-last: re-registering an outpoint replaces what the builder holds for it (amount included)
+    rep.rule("REGISTER-last", "TxInputsBuilder::push_input stores through an overwriting BTreeMap::insert: when a collateral outpoint is added again with a corrected value the builder holds the last value, which is what total_value() and the collateral return / total computations read")
+    fid = find_fn(rep, F, "TxInputsBuilder::push_input")
+    if fid:
+        rep.inst("REGISTER-last")
+        tos = [(c.to or "") for c in F.calls(fid)]
+        keeps_first = sorted({t.rsplit("::", 1)[-1] for t in tos if t.rsplit("::", 1)[-1] in ("or_insert", "or_insert_with", "or_default", "try_insert", "contains_key") or t.endswith("BTreeMap::<K, V, A>::entry")})
+        if keeps_first:
+            rep.violation("REGISTER-last", "TxInputsBuilder::push_input|%s" % ",".join(keeps_first), "push_input keeps an existing registration (%s) instead of replacing it: an outpoint added again with its actual value keeps the stale first amount, and collateral return + total no longer equal the collateral inputs" % ", ".join(keeps_first), {})
+        elif not any(t.endswith("BTreeMap::<K, V, A>::insert") for t in tos):
+            rep.lost("TxInputsBuilder::push_input no longer stores through BTreeMap::insert (re-anchor REGISTER-last)")
     return rep.finish(
         EXPLANATION,
         ["min_ada_for_output is C07's concern", "BigNum::div_floor(100) is exact floor division (divisor constant non-zero)"],
